@@ -16,6 +16,7 @@ from gwf.backends import create_backend
 from gwf.conf import CONFIG_DEFAULTS, FileConfig
 
 META = {
+    "solver_reasoned": 'E2: unbounded strings (namespace and key); otherwise selectors over value/key catalogues and flag/config presence.',
     "real": ["gwf.conf.FileConfig.load/dump/get/__getitem__/__setitem__/__delitem__/get_namespace", "gwf.conf.try_conv/try_int/try_true/try_false", "gwf.plugins.config.get/set/unset (bodies)",
              "gwf.cli.main (body)", "gwf.backends.base.create_backend", "gwf.backends.slurm.create_backend/SlurmOps.get_job_states", "gwf.backends.local.create_backend/LocalOps/Client.connect"],
     "stubs": ["VFS for .gwfconf.json", "cli.configure_logging recorded; guess_backend fixed; os.getcwd fixed", "scheduler simulator / pool model (to observe sacct calls and the host/port the client connects to)",
